@@ -1795,8 +1795,13 @@ def run(ctx):
         d[k] = d.get(k, 0) + n
 
     def record_failure(stream, case, fail, shrunk=True):
+        """every failing case is attributed or counted; at most 25 violations are written out"""
         bump(dist["failure_kinds"], stream + ":" + str(fail.get("kind")))
-        ctx.fail({"stream": stream, "case": case, "kind": fail.get("kind"), "detail": fail})
+        fc = {"stream": stream, "case": case, "kind": fail.get("kind"), "detail": fail}
+        if len(ctx.violations) >= 25 and ctx.attribute(fc) is None:
+            bump(dist, "violations_not_written")
+            return
+        ctx.fail(fc)
 
     # ---- corpus: minimised past failures (fixed defects must stay fixed), run first
     cdir = os.path.join(vlib.VERIF, "corpus", "C08")
@@ -1878,9 +1883,9 @@ def run(ctx):
     for (stream, c), r in zip(bcases, results):
         for d in r["corr"]:
             corr_bad.append({"stream": stream, "case": c, "detail": d})
-        if r["fail"] and nfail < 40:
+        if r["fail"]:
             nfail += 1
-            small = shrink_bare(c, r["fail"]["kind"])
+            small = shrink_bare(c, r["fail"]["kind"]) if nfail <= 30 else c
             f2 = bare_fails(small) or r["fail"]
             record_failure(stream, small, f2)
     for (stream, c), r in list(zip(bcases, results))[:2]:
@@ -1915,9 +1920,9 @@ def run(ctx):
     for c, r in zip(ccases, cres):
         for d in r["corr"]:
             corr_bad.append({"stream": "carrier", "case": c, "detail": d})
-        if r["fail"] and nfail < 12:
+        if r["fail"]:
             nfail += 1
-            small = shrink_carrier(c, r["fail"]["kind"])
+            small = shrink_carrier(c, r["fail"]["kind"]) if nfail <= 10 else c
             try:
                 f2 = run_carrier_case(small)["fail"] or r["fail"]
             except Exception:
@@ -1938,7 +1943,7 @@ def run(ctx):
             f = run_read_case(c)
         except Exception as e:
             f = {"kind": "harness:" + type(e).__name__}
-        if f and nfail < 40:
+        if f:
             nfail += 1
             kind = f["kind"]
 
@@ -1948,7 +1953,7 @@ def run(ctx):
                 except Exception:
                     return False
                 return g is not None and g["kind"] == kind
-            small = shrink_tokens(c, bad)
+            small = shrink_tokens(c, bad) if nfail <= 60 else c
             record_failure("read", small, run_read_case(small) or f)
 
     # ---- TR cards and surface constants edited through the API, written by write_to_file, re-read by spec.py
@@ -1966,7 +1971,7 @@ def run(ctx):
             continue
         dist["direct"]["edited"] += bool(c["edits"])
         ctx.count_case(("direct", json.dumps(c, sort_keys=True)), nontrivial=bool(c["edits"]))
-        if f and nfail < 12:
+        if f:
             nfail += 1
             kind = f["kind"]
 
@@ -1976,7 +1981,7 @@ def run(ctx):
                 except Exception:
                     return False
                 return isinstance(g, dict) and g["kind"] == kind
-            small = shrink_tokens(c, bad)
+            small = shrink_tokens(c, bad) if nfail <= 10 else c
             g = run_direct_case(small)
             record_failure("direct", small, g if isinstance(g, dict) else f)
 
